@@ -923,3 +923,29 @@ def ma5(ctx):
         must_dr = not any(e in rb[0].reach([rb[0].entry], avoid=c) for e in rb[0].return_points())
     ctx.check(paired and must_dr, 'truncate:metas-and-payload', t.span, 'partial truncation drains the metas and the payload bytes together',
               'a partial truncation can drop record metas without dropping their payload bytes (or vice versa): memory_used would not drop by what was evicted')
+
+
+@rule('PAST4', ['C04'], floor=2, template='must-store')
+def past4(ctx):
+    """Truncation moves the queue's start position to (truncate position + 1) whenever it removes records or
+    empties the queue: an emptied queue keeps handing out positions after the truncation point."""
+    th = ctx.fn('mem::queue::MemQueue::truncate_head')
+    if not th:
+        ctx.missing('truncate_head', 'MemQueue::truncate_head not found')
+        return
+    b = th[0]
+    fl = flow_of(b)
+    t_par = fl.forward(set(fl.local_sources(2)), skip_mem=True) if b.arg_count >= 2 else set()
+    moves = [p for (p, pl, rv) in b.stores if mem_loc(pl) == 'MemQueue.start_position' and rv['k'] == 'use' and fl.op_tainted(rv['op'], t_par)]
+    removals = [cs for cs in b.calls if re.search(r'Vec::<mem::queue::RecordMeta>::(clear|drain|truncate|split_off)', cs.name)]
+    rets = b.return_points()
+    n = 0
+    for cs in removals:
+        n += 1
+        # every path through the removal to a return also stores the new start position
+        before = any(b.dominates(m, cs.point) for m in moves)
+        after = not any(r in b.reach_after(cs.point, avoid=moves) for r in rets)
+        ctx.check(bool(moves) and (before or after), 'removal:%s#%d' % (method_name(cs.name), n), where(b, cs.point), 'removal of records paired with start_position = truncate position + 1',
+                  'records can be removed (or the queue emptied) without moving start_position past the truncation point: an emptied queue would hand out already used positions')
+    if n < 2:
+        ctx.missing('removals', 'expected the emptying and the partial removal of record metas in truncate_head')
